@@ -223,9 +223,23 @@ func ruleRACE2(c *Ctx) []Obligation {
 					if as, ok := st.(*ast.AssignStmt); ok && len(as.Lhs) == 1 && len(as.Rhs) == 1 && strings.ReplaceAll(exprString(as.Rhs[0]), " ", "") == recvS+".ID()" {
 						idVar = exprString(as.Lhs[0])
 					}
-					if is, ok := st.(*ast.IfStmt); ok && idVar != "" && is.Else == nil && len(is.Body.List) == 1 {
+					if is, ok := st.(*ast.IfStmt); ok && is.Else == nil && len(is.Body.List) == 1 {
 						cond := strings.ReplaceAll(exprString(is.Cond), " ", "")
-						if cond == idVar+"!=-1" {
+						// `id != -1` on a local holding recv.ID(), or `recv.ID() != -1` itself; the
+						// sentinel may be a named constant
+						sentinel := false
+						if be, ok := unparen(is.Cond).(*ast.BinaryExpr); ok && be.Op == token.NEQ {
+							if tv := info.Types[be.Y]; tv.Value != nil && tv.Value.String() == "-1" {
+								lhs := strings.ReplaceAll(exprString(be.X), " ", "")
+								if (idVar != "" && lhs == idVar) || lhs == recvS+".ID()" {
+									sentinel = true
+									if idVar == "" {
+										idVar = recvS + ".ID()"
+									}
+								}
+							}
+						}
+						if sentinel || (idVar != "" && cond == idVar+"!=-1") {
 							switch b := is.Body.List[0].(type) {
 							case *ast.BranchStmt:
 								if b.Tok == token.CONTINUE {
